@@ -93,6 +93,34 @@ func crossFileRootUnwrap(idx int) *ir.Request {
 	return &ir.Request{Files: []*ir.File{b, a}, Generate: []string{b.Name, a.Name}}
 }
 
+// sharedAcrossServices: annotated messages (flattened / nested discriminated oneof, flatten with
+// nullable children, empty_behavior, json_name, …) defined in one file and reached by the services
+// of TWO files generated in one invocation: whatever a plugin remembers about a message while it
+// handles the first file or service must not change what it emits for the second.
+func sharedAcrossServices(idx int) *ir.Request {
+	zoo := gen.GenShapeZoo(idx).Files[0]
+	Z := "." + zoo.Package + "."
+	feed := &ir.File{Name: fmt.Sprintf("feed%d/feed.proto", idx), Package: "feed.v1", GoPackage: "example.com/gen/feed/v1;feedv1", Deps: []string{zoo.Name},
+		Messages: []*ir.Message{
+			{Name: "FeedReq", Fields: []*ir.Field{{Name: "cursor", Number: 1, Kind: "string"}}},
+			{Name: "Feed", Fields: []*ir.Field{
+				{Name: "events", Number: 1, Kind: "message", TypeName: Z + "OneofFlatZ", Card: "repeated"},
+				{Name: "nested", Number: 2, Kind: "message", TypeName: Z + "OneofNestedZ"},
+				{Name: "places", Number: 3, Kind: "message", TypeName: Z + "FlatNullZ", Card: "map", MapKey: "string"},
+				{Name: "stamps", Number: 4, Kind: "message", TypeName: Z + "EmptyStampZ"},
+			}},
+		},
+		Services: []*ir.Service{
+			{Name: "FeedSvc", BasePath: "/feed", Methods: []*ir.Method{
+				{Name: "List", Input: ".feed.v1.FeedReq", Output: ".feed.v1.Feed", Config: &ir.HTTPConfig{Path: "/list", Method: "POST"}},
+				{Name: "Latest", Input: ".feed.v1.FeedReq", Output: Z + "OneofFlatZ", Config: &ir.HTTPConfig{Path: "/latest", Method: "POST"}}}},
+			{Name: "AuditSvc", BasePath: "/audit", Methods: []*ir.Method{
+				{Name: "Last", Input: ".feed.v1.FeedReq", Output: Z + "OneofFlatZ", Config: &ir.HTTPConfig{Path: "/last", Method: "POST"}},
+				{Name: "Put", Input: Z + "FlatNullZ", Output: Z + "PlainStamps", Config: &ir.HTTPConfig{Path: "/put", Method: "PUT"}}}},
+		}}
+	return &ir.Request{Files: []*ir.File{zoo, feed}, Generate: []string{zoo.Name, feed.Name}}
+}
+
 // orderSensitive: shapes whose emission order depends on a sorted or discovery-ordered collection:
 // service and method headers that differ only by case, several enums, several unreferenced
 // messages named *Error (the TS plugins pick them up by naming convention).
@@ -156,6 +184,7 @@ func C15(c *Ctx) error {
 	}
 	// a 50/50 order flip survives r identical runs with probability 2^-(r-1): repeat these often
 	bases = append(bases, base{orderSensitive(9000), false, c.N(14, 24)})
+	bases = append(bases, base{sharedAcrossServices(9001), true, 0})
 	type cmpJob struct {
 		b       base
 		plugin  string
@@ -163,6 +192,7 @@ func C15(c *Ctx) error {
 		ref     *plug.Result
 		alt     *plug.Result
 		altReq  *ir.Request
+		refReq  *ir.Request // when set: the reference is this request's output (not the base's)
 		only    string // compare only the files of this proto file
 		err     error
 	}
@@ -194,6 +224,26 @@ func C15(c *Ctx) error {
 			}
 		}
 	}
+	// parameter spelling (openapiv3 parses its own parameter string): white space around a pair,
+	// around the key and around the value, and other parameters next to it select the same format
+	spellings := map[string][]string{
+		"format=json": {" format=json ", "format = json", "format= json", "format =json", "format=json ,paths=source_relative", "paths=source_relative, format = json", "\tformat\t=\tjson"},
+		"format=yaml": {"", "format = yaml", "format= yaml ", " format =yaml", "format=yml", "format = yml", "paths=source_relative"},
+	}
+	for bi, b := range bases {
+		if bi%5 != 0 && bi < len(bases)-2 {
+			continue
+		}
+		for _, canon := range []string{"format=json", "format=yaml"} {
+			refReq := b.req.Clone()
+			refReq.Parameter = canon
+			for si, sp := range spellings[canon] {
+				alt := b.req.Clone()
+				alt.Parameter = sp
+				jobs = append(jobs, &cmpJob{b: b, plugin: plug.OpenAPI, variant: fmt.Sprintf("parameter_spelling:%s#%d", canon, si), altReq: alt, refReq: refReq})
+			}
+		}
+	}
 	refs := map[string]*plug.Result{}
 	type refKey struct {
 		i int
@@ -219,6 +269,11 @@ func C15(c *Ctx) error {
 	parallel(len(jobs), func(i int) {
 		j := jobs[i]
 		j.ref = refs[fmt.Sprintf("%p|%s", j.b.req, j.plugin)]
+		if j.refReq != nil {
+			if j.ref, j.err = plug.Run(j.plugin, j.refReq, &plug.RunOpts{Env: []string{"GOMAXPROCS=16"}}); j.err != nil {
+				return
+			}
+		}
 		env := []string{fmt.Sprintf("GOMAXPROCS=%d", []int{1, 2, 4, 16}[i%4])}
 		j.alt, j.err = plug.Run(j.plugin, j.altReq, &plug.RunOpts{Env: env})
 	})
@@ -230,6 +285,9 @@ func C15(c *Ctx) error {
 		res.Case(map[string]any{"schema": hashStr(j.b.req.ShapeKey()), "variant": j.variant, "plugin": j.plugin}, nontrivial)
 		res.Count("variant:" + strings.SplitN(j.variant, "#", 2)[0])
 		replay := map[string]any{"schema": j.b.req, "variant": j.variant, "plugin": j.plugin, "variant_request": j.altReq}
+		if j.refReq != nil {
+			replay["reference_parameter"], replay["variant_parameter"] = j.refReq.Parameter, j.altReq.Parameter
+		}
 		if j.ref.Outcome() != j.alt.Outcome() {
 			res.Violation("outcome:"+j.variant, fmt.Sprintf("%s: outcome %s vs %s under variation %s", j.plugin, j.ref.Outcome(), j.alt.Outcome(), j.variant), replay)
 			continue
